@@ -68,7 +68,7 @@ Section Chain.
     match cfg_of_body h body with
     | Base.Ok (Some c) =>
         match ssa_of c with
-        | Base.Ok (Ssa.SOk c1) => Justify.ldefs_unique (Justify.all_stmts (Ir.c_blocks c1))
+        | Base.Ok (_, Ssa.SOk c1) => Justify.ldefs_unique (Justify.all_stmts (Ir.c_blocks c1))
         | _ => true
         end
     | _ => true
@@ -117,7 +117,7 @@ Section Chain.
     destruct (MirrorsDom.lifted_tree _ g Hg ord Hord) as (t & Ht).
     set (frontier := PM.sets_of horder (Dom.dt_frontier t)).
     set (children := PM.sets_of horder (Dom.dt_children t)).
-    assert (E2 : ssa_of c = Base.Ok (Ssa.into_ssa frontier children c)).
+    assert (E2 : ssa_of c = Base.Ok (PM.idom_table t, Ssa.into_ssa frontier children c)).
     { unfold PM.ssa_of. rewrite (MirrorsAdapter.dom_of_ir_of_lift tbl g h c Hc), Ht. reflexivity. }
     unfold PM.analyse_cfg. rewrite E2 in Hs |- *.
     pose proof (MirrorsAdapter.ir_length tbl g h c Hc) as Hlen.
@@ -133,7 +133,7 @@ Section Chain.
     pose proof (SsaClean.into_ssa_keeps_clean frontier children c c1
                   (MirrorsAdapter.ir_clean tbl g h c Hc Hcl) Essa) as Hclean.
     rename Hs into Huniq.
-    destruct (PropagateTotal.propagate_completes p Hp1 Hp2 Hp3 kv kd c1 Hclean Huniq) as (c2 & ->). exact I.
+    destruct (PropagateTotal.propagate_completes p Hp1 Hp2 Hp3 kv kd (PM.idom_table t) c1 Hclean Huniq) as (c2 & ->). exact I.
   Qed.
 
   Lemma analyse_template_fine ts lib t : template_ok ts lib t -> fine (analyse_template (env_of ts) lib t).
